@@ -219,6 +219,15 @@ def report(ctx, recs, strict):
                                        "inputs.json": json.dumps(r.get("inputs")), "detail.json": json.dumps(
                                            {k: r.get(k) for k in ("opt", "ep", "input", "detail", "ir_result", "hlsl_result")})},
                           key=key)
+        elif v == "fuel" and strict:
+            key = "fuel:" + name
+            if key in seen:
+                continue
+            seen.add(key)
+            ctx.violation("the HLSL emitted for %s (options %s) does not terminate within %d steps on an input on which the WGSL "
+                          "program terminates within %d (input %s of entry point %s)"
+                          % (name, r["opt"], D.HLSL_FUEL, D.IR_FUEL, r.get("input"), r.get("ep")),
+                          files={"detail.json": json.dumps(r)}, key=key)
         elif v == "out_of_fragment" and strict:
             key = "oof:" + name
             if key in seen:
